@@ -63,7 +63,7 @@ def jobs(tier, seed):
     return out
 
 
-WRAPPED = ("macro-twice", "loop", "named-scope", "block", "macro-scope-twice", "loop-scope", "blocks-scope")
+WRAPPED = ("macro-twice", "loop", "named-scope", "block", "macro-scope-twice", "loop-scope", "blocks-scope", "alias-inner-label", "param-inner-label")
 
 
 def wrapped_source(kind, mn, k):
@@ -81,6 +81,13 @@ def wrapped_source(kind, mn, k):
     if kind == "block":
         src = "{\nlp:\n{\n" + f + f"{mn} lp\n}}\n}}\n"
         return src, k + 2, [(k, 0)]
+    if kind == "alias-inner-label":
+        # `alias = tgt` names the label of its own block (defined further down), not the earlier outer label of that name
+        src = "tgt:\nnop\n{\nalias = tgt\n" + f"{mn} alias\n" + f + "tgt:\nnop\n}\n"
+        return src, 1 + 2 + k + 1, [(1, 1 + 2 + k)]
+    if kind == "param-inner-label":
+        src = ".macro brm(where) {\n" + f"{mn} where\n" + "}\ntgt:\nnop\n{\nbrm(tgt)\n" + f + "tgt:\nnop\n}\n"
+        return src, 1 + 2 + k + 1, [(1, 1 + 2 + k)]
     # a named scope declared by each expansion of a macro / loop body / sibling block: `tx.busy` is that expansion's label
     one = ".scope tx {\nbusy:\n" + f + "}\n" + f"{mn} tx.busy\n"
     if kind == "macro-scope-twice":
@@ -133,7 +140,7 @@ def run(spec, cx):
 def check_wrapped(spec, cx, out, R0, isrom, base):
     _, total, branches = wrapped_source(spec["kind"], spec["mn"], spec["k"])
     run_ok = z3.And(isrom(R0), (R0 & 0xFFFF) >= base, (R0 & 0xFFFF) + total <= 0xFFFF)
-    ram = is_ram(R0)
+    ram = z3.And(is_ram(R0), is_ram(R0 + total))       # the whole program runs from RAM
     all_in_range = all(-128 <= t - (b + 2) <= 127 for b, t in branches)
     if out[0] != "ok":
         return [("in-range-branch-is-encoded", z3.Not(z3.And(run_ok, z3.BoolVal(all_in_range))))]
